@@ -213,7 +213,13 @@ def setup():
     """MANIFEST.setup_cmd: build every Lean target and every harness binary once"""
     ok = True
     mods, exes, bins = [], [], []
-    for cfg in PROPS.values():
+    try:
+        claimed = {c["property_id"] for c in json.load(open(os.path.join(VERIF, "MANIFEST.json")))["checks"]}
+    except Exception:  # noqa: BLE001
+        claimed = set(PROPS)
+    for pid, cfg in PROPS.items():
+        if pid not in claimed:
+            continue
         mods += [m for m in cfg.get("lean_modules", []) if m not in mods]
         exes += [e for e in cfg.get("lean_exes", []) if e not in exes]
         if cfg.get("harness_bin") and cfg["harness_bin"] not in bins:
